@@ -28,7 +28,7 @@ theorem removeAll_hidden_refused {σ} (inner : FSI σ) (hp : List Path) (n : Pat
     (hiddenFS hp inner).call s (.removeAll n) = (s, .error .hiddenNotExist) := by
   rw [hiddenFS_call_removeAll]
   unfold hiddenRemoveAll
-  rw [hguard_of_hidden _ hh]
+  rw [hguard_of_hidden _ (by rw [isHidden_rmName]; exact hh)]
   rfl
 
 /-- D06.2 (single-name methods, all 14 incl. `RemoveAll`) for a name at or below a hidden path the
@@ -118,7 +118,7 @@ theorem hidden_subtree_untouched_wfb (bk : Key) (hbk : PKey bk) (hks : List Key)
   by_cases hra : ∃ n, c = .removeAll n
   · obtain ⟨n, rfl⟩ := hra
     rw [hiddenFS_call_removeAll]
-    show (hiddenRemoveAll (mk (hks.map kp)) (prefixFS (kp bk) osfs) 64 m n).1.get (bk ++ j) = _
+    show (hiddenRemoveAll (mk (hks.map kp)) (prefixFS (kp bk) osfs) 64 m (rmName n)).1.get (bk ++ j) = _
     -- the invariant of the walk: well-formed, hidden subtrees as in `m`
     let I : MFS → Prop := fun s => WFB bk s ∧ ∀ j, HidK hks j → s.get (bk ++ j) = m.get (bk ++ j)
     have hstep : StepInv (mk (hks.map kp)) (prefixFS (kp bk) osfs) I := by
@@ -132,7 +132,7 @@ theorem hidden_subtree_untouched_wfb (bk : Key) (hbk : PKey bk) (hks : List Key)
           (by intro n hn; simp only [Call.accessPaths, List.mem_singleton] at hn; subst hn; exact hv)
           (fun _ _ e => by cases e) (fun _ e => by cases e) j' hj']
         exact hI.2 j' hj'
-    exact (hiddenRemoveAll_inv hstep 64 m n ⟨hw, fun _ _ => rfl⟩).2 j hj
+    exact (hiddenRemoveAll_inv hstep 64 m (rmName n) ⟨hw, fun _ _ => rfl⟩).2 j hj
   · have hnra : ∀ n, c ≠ .removeAll n := fun n e => hra ⟨n, e⟩
     rw [hiddenFS_call_gen _ _ _ _ hnra]
     cases htr : translate (mk (hks.map kp)) c with
